@@ -101,6 +101,8 @@ def _typed_expand_rename(rng, n):
                 a, b = rng.sample(range(nb), 2)
                 ops.append("bforget 0 %d" % b)
                 ops.append("rename 0 1 %d %d" % (nv + a, nv + b))
+                # (the shared oracle gives the old name an arbitrary integer: make it a boolean again)
+                ops.append("bforget 0 %d" % a)
             elif x < 0.9:
                 vs = rng.sample(range(nv + nb), rng.randint(1, 3))
                 ops.append("forget 0 %d %s" % (len(vs), " ".join(map(str, vs))))
@@ -117,12 +119,41 @@ def _typed_expand_rename(rng, n):
     return out
 
 
+def _leq_scripted(rng, n):
+    """scripted: two registers that remember the same constraints but differ in the unchanged
+    variables / the remembered sets / the implied booleans; inclusion both ways, each followed
+    by a probe (assume_bool on a copy of the right operand)"""
+    out = []
+    for _ in range(n):
+        nv = rng.choice([2, 3]); nb = rng.choice([2, 3])
+        ops = []
+        known = []
+        for _ in range(rng.randint(1, 3)):
+            ops.append(X._bool_op(rng, 0, nv, nb, known))
+        ops.append("copy 1 0")
+        for r in (0, 1):
+            for _ in range(rng.choice([0, 1, 1, 2])):
+                x = rng.random()
+                if x < 0.45:
+                    ops += X._modify(rng, r, rng.randrange(nv), nv, nb)
+                elif x < 0.8:
+                    ops.append(X._bool_op(rng, r, nv, nb, known))
+                else:
+                    ops.append("bassume %d %d %d" % (r, rng.choice(known), rng.randrange(2)))
+        for (a, b) in ((0, 1), (1, 0)):
+            ops.append("q_leq %d %d" % (a, b))
+            ops.append("leqprobe 2 %d %d %d %d" % (a, b, rng.choice(known), 0 if rng.random() < 0.8 else 1))
+        out.append("hist 3 %d %d ; %s" % (nv, nb, " ; ".join(ops)))
+    return out
+
+
 def gen_lines(tier, seed, prop="C03"):
     q = tier == "quick"
     rng = random.Random(seed * 31 + 5)
     lines = list(CORPUS) + list(X.BOOL_CORPUS)
     lines += X.bool_histories(seed + 401, 700 if q else 20000, prop)
     lines += _typed_expand_rename(random.Random(seed + 402), 150 if q else 4000)
+    lines += _leq_scripted(random.Random(seed + 405), (300 if prop == "C04" else 120) if q else 4000)
     # numerical histories (the language of the interval stream) as they are, and with boolean
     # operations inserted
     num = domhist.gen(seed + 403, tier, opts={"maxvars": 4, "maxops": 25, "corpus": False}, n=(350 if q else 10000))
